@@ -25,7 +25,7 @@ TIERS = {
 }
 
 
-def run(pid, tier, ev=None, vd=None, finish=True):
+def run(pid, tier, ev=None, vd=None, finish=True, want_label=None):
     ev = ev or Evidence(pid, tier, "model_checking")
     vd = vd or Verdict(pid, ev)
     T = TIERS[tier]
@@ -107,7 +107,7 @@ def run(pid, tier, ev=None, vd=None, finish=True):
             return off, res[0]
 
         nonconf = 0
-        want = {"C02": "C02", "C06": "C06", "C07": "C07", "C15": "C15"}[pid]
+        want = want_label or {"C02": "C02", "C06": "C06", "C07": "C07", "C15": "C15"}[pid]
         with ThreadPoolExecutor(max_workers=12) as ex:
             for off, res in ex.map(validate, files):
                 for (ln, q) in res["bad"]:
@@ -138,7 +138,7 @@ def run(pid, tier, ev=None, vd=None, finish=True):
             open(pth, "wb").write(data)
             hexes[vlib.run_cmd([bins["vh_lib"], "b3", pth]).stdout.decode().strip()] = c
         nh = 80 if tier == "quick" else 2500
-        hrecs = bh.run_all(copia, os.path.join(work, "h"), [(vlib.seed() * 10007 + i, 24, hexes) for i in range(nh)])
+        hrecs = bh.run_all(copia, os.path.join(work, "h"), [(vlib.seed() * 10007 + i, 24, hexes) for i in range(nh)], pairs=True)
         hpath = os.path.join(work, "hist.ndjson")
         hfiles = []
         for k in range(0, len(hrecs), 3000):
